@@ -239,7 +239,7 @@ func program(dirs []string, names []string, failing map[int]bool, service bool) 
 
 var pathShapes = []string{
 	"p.go", "a/b.go", "deep/er/still/x.go", "/abs/x.go", "/x.go", "//dbl//x.go", "a//b//c.go", "./dot.go", "a/./b.go",
-	"./a/./b/./c.go", "trail/x.go/", "sp ace/x.go", "a.b/c.d.go", "...", ".../x", ".hidden", "-dash", "main/other.go", "main.go",
+	"./a/./b/./c.go", "trail/x.go/", "sp ace/x.go", "a.b/c.d.go", "...", ".../x", ".hidden", "-dash", "root/other.go", "root.go",
 }
 
 var dotdotShapes = []string{"../x.go", "a/../../x.go", "..", "a/..", "a..b/x.go", "x..", "..x", "/../x", "a/b/../../../x"}
@@ -281,7 +281,7 @@ func c17Generate(r *rng.R, n int) []c17Scenario {
 		s := c17Scenario{Cwd: "work", Files: map[string]string{"sibling/keep.txt": "keep", "work/note.txt": "n"}}
 		// layout
 		nm := 1 + r.Intn(4)
-		names := []string{"main", "inc1", "inc2", "inc3", "inc4"}[:nm]
+		names := []string{"root", "inc1", "inc2", "inc3", "inc4"}[:nm]
 		layout := r.Intn(5)
 		dirs := make([]string, nm)
 		for k := range dirs {
@@ -367,14 +367,14 @@ func c17Generate(r *rng.R, n int) []c17Scenario {
 		}
 		stale := !fresh && r.Chance(1, 2)
 		if stale {
-			s.Files[filepath.Join(outRel, "main", "main.go")] = "// stale"
+			s.Files[filepath.Join(outRel, "root", "root.go")] = "// stale"
 		}
 		// what the output directory already holds must not be in the way of an ACCEPTED plan (that
 		// would be an OS-level failure of the write loop, outside C17): a deliberate clash with a
-		// position where a core file only MAY be must not touch the stale main/main.go.
+		// position where a core file only MAY be must not touch the stale root/root.go.
 		blocked := func(p string) bool {
 			c := cleanRel(p)
-			return stale && (c == "/main" || c == "/main/main.go" || strings.HasPrefix(c, "/main/main.go/"))
+			return stale && (c == "/root" || c == "/root/root.go" || strings.HasPrefix(c, "/root/root.go/"))
 		}
 		// plugins and their paths
 		taken := map[string]bool{}
@@ -474,7 +474,7 @@ func c17Generate(r *rng.R, n int) []c17Scenario {
 					case r.Chance(1, 10) && len(raw) > 0:
 						path = raw[r.Intn(len(raw))] // equal to another (or the same) plugin's path
 					case r.Chance(1, 12):
-						path = "main/main.go" // possibly equal to a core path
+						path = "root/root.go" // possibly equal to a core path
 					default:
 						path = pathShapes[r.Intn(len(pathShapes))]
 						if r.Chance(1, 2) {
@@ -494,7 +494,7 @@ func c17Generate(r *rng.R, n int) []c17Scenario {
 						}
 					}
 					isDotDot := strings.Contains(path, "..")
-					if dup || (!deliberate && !rawEqual && !isDotDot && path != "main/main.go" && !usable(path, taken)) {
+					if dup || (!deliberate && !rawEqual && !isDotDot && path != "root/root.go" && !usable(path, taken)) {
 						continue
 					}
 					p.Files = append(p.Files, kv2{path, fmt.Sprintf("%s#%d", p.key(), len(p.Files))})
@@ -695,7 +695,7 @@ func shapeOf(p string) string {
 		return "repeated separators"
 	case strings.HasPrefix(p, "./") || strings.Contains(p, "/./"):
 		return "dot component"
-	case p == "main/main.go":
+	case p == "root/root.go":
 		return "core path"
 	}
 	return "relative"
@@ -705,13 +705,13 @@ func shapeOf(p string) string {
 // (each must fail with the sandbox untouched; anything else is a violation).
 func c17Regressions() []c17Scenario {
 	base := func(label string, plugins ...c17Plugin) c17Scenario {
-		files, mods := program([]string{"proj"}, []string{"main"}, nil, true)
+		files, mods := program([]string{"proj"}, []string{"root"}, nil, true)
 		files["sibling/keep.txt"] = "keep"
 		files["out/existing.txt"] = "old"
 		return c17Scenario{Label: label, Cwd: "work", Files: files, Main: mods[0].Path, Out: "{S}/out", Modules: mods, Plugins: plugins}
 	}
 	return []c17Scenario{
-		base("regression D42: plugin ./main/main.go vs core main/main.go", c17Plugin{Name: "alpha", Files: []kv2{{"./main/main.go", "PLUGIN"}}}),
+		base("regression D42: plugin ./root/root.go vs core root/root.go", c17Plugin{Name: "alpha", Files: []kv2{{"./root/root.go", "PLUGIN"}}}),
 		base("regression D42: plugins x.go and ./x.go", c17Plugin{Name: "alpha", Files: []kv2{{"x.go", "AAA"}}}, c17Plugin{Name: "beta", Files: []kv2{{"./x.go", "BBB"}}}),
 		base("regression D42: plugins a/b.go and /a//b.go", c17Plugin{Name: "alpha", Files: []kv2{{"a/b.go", "AAA"}}}, c17Plugin{Name: "beta", Files: []kv2{{"/a//b.go", "BBB"}}}),
 		base("regression D42: one plugin returning x.go and ./x.go", c17Plugin{Name: "alpha", Files: []kv2{{"x.go", "AAA"}, {"./x.go", "BBB"}}}),
@@ -722,12 +722,12 @@ func c17Regressions() []c17Scenario {
 		base("regression D33: plugin path \"\"", c17Plugin{Name: "alpha", Files: []kv2{{"", "X"}}}),
 		base("regression D33: plugin path \"./\" beside an ordinary file", c17Plugin{Name: "alpha", Files: []kv2{{"ok.go", "O"}, {"./", "X"}}}),
 		base("regression D33: plugin path \"/\" from the second plugin", c17Plugin{Name: "alpha", Files: []kv2{{"ok.go", "O"}}}, c17Plugin{Name: "beta", Files: []kv2{{"/", "X"}}}),
-		base("regression D33: plugin file \"main\" vs core directory main/", c17Plugin{Name: "alpha", Files: []kv2{{"main", "X"}}}),
-		base("regression D33: plugin file below the core file main/main.go", c17Plugin{Name: "alpha", Files: []kv2{{"main/main.go/x.go", "X"}}}),
+		base("regression D33: plugin file \"root\" vs core directory root/", c17Plugin{Name: "alpha", Files: []kv2{{"root", "X"}}}),
+		base("regression D33: plugin file below the core file root/root.go", c17Plugin{Name: "alpha", Files: []kv2{{"root/root.go/x.go", "X"}}}),
 		base("regression D33: plugins a and a/b.go", c17Plugin{Name: "alpha", Files: []kv2{{"a", "AAA"}}}, c17Plugin{Name: "beta", Files: []kv2{{"a/b.go", "BBB"}}}),
 		base("regression D33: plugins a/b/c.go and ./a", c17Plugin{Name: "alpha", Files: []kv2{{"a/b/c.go", "AAA"}, {"z.go", "Z"}}}, c17Plugin{Name: "beta", Files: []kv2{{"./a", "BBB"}}}),
 		base("regression D33: one plugin returning q/r.go and q", c17Plugin{Name: "alpha", Files: []kv2{{"q/r.go", "AAA"}, {"q", "BBB"}}}),
-		base("near clash: main-x, mai, main/main.gox beside core main/main.go (accepted)", c17Plugin{Name: "alpha", Files: []kv2{{"main-x", "A"}, {"mai", "B"}, {"main/main.gox", "C"}}}),
+		base("near clash: root-x, roo, root/root.gox beside core root/root.go (accepted)", c17Plugin{Name: "alpha", Files: []kv2{{"root-x", "A"}, {"roo", "B"}, {"root/root.gox", "C"}}}),
 	}
 }
 
@@ -818,5 +818,5 @@ func runC17(c *checker, r *rng.R) {
 	c17Paths(c, r)
 	c.flush()
 	c.rep.Rule = "scenarios = the real thriftrw binary in a sandbox tree (sources, output directory with pre-existing files or (1 in 3) not existing yet, a sibling directory; package prefix from --pkg-prefix or (1 in 5) derived from $GOPATH) hashed before/after: 1..5 modules in 5 directory layouts with the k-th module failing to generate x {no --thrift-root, proj, grandparent, main's own dir, uncleaned, relative} x 5 out-dir spellings x 0..3 plugins returning paths from {relative, absolute, .., ., repeated separators, trailing slash, equal to a core path, equal to another plugin's path, the output directory itself (\"\", \".\", \"./\", \"/\"), a file below / a directory of another plugin's path, a file below / a directory of a possible core file} or failing; compared with the Lean plan (exit status + exact set of files written with contents); + 12k random POSIX path pairs through Clean/Join/Rel/Dir/Base/IsAbs/generated-file path vs path/filepath. non-trivial = has plugins, several modules or an explicit root; distinct by scenario"
-	c.rep.Notes = append(c.rep.Notes, "D42, D34 and D33 are fixed: their witnesses run as ordinary scenarios (a failure must leave the sandbox untouched), and the D33 shapes — a path that is the output directory itself, file-vs-directory pairs between two plugins and between a plugin and a core file — are part of the random stream; what the output directory holds beforehand (existing.txt, sometimes a stale main/main.go) is never in the way of an accepted plan: a write refused by the OS half-way is outside C17")
+	c.rep.Notes = append(c.rep.Notes, "D42, D34 and D33 are fixed: their witnesses run as ordinary scenarios (a failure must leave the sandbox untouched), and the D33 shapes — a path that is the output directory itself, file-vs-directory pairs between two plugins and between a plugin and a core file — are part of the random stream; what the output directory holds beforehand (existing.txt, sometimes a stale root/root.go) is never in the way of an accepted plan: a write refused by the OS half-way is outside C17")
 }
